@@ -57,6 +57,7 @@ def run(req, real_out):
         gen = gmod.GENS[key]
         rng = random.Random(seed)
         n = 0
+        nret = 0
         for case in gen(tier, rng):
             if time.time() > deadline:
                 break
@@ -72,6 +73,7 @@ def run(req, real_out):
                 continue
             n += 1
             evals += 1
+            nret += 1 if out.get('outcome') == 'ret' else 0
             distinct.add((key, label))
             if len(samples) < 8 and evals % 211 == 1:
                 samples.append({'contract': key, 'input': label, 'outcome': out.get('outcome')})
@@ -80,6 +82,10 @@ def run(req, real_out):
                     violations.append({'clause': f'{key}/{cl}', 'contract': key, 'file': c.get('file'), 'func': c.get('func'),
                                        'input': {'case': label, **out.get('args', {})},
                                        'observed': {k: out.get(k) for k in ('outcome', 'result', 'exc', 'clauses')}})
+        if n > 0 and nret == 0 and (c.get('ensures') or c.get('bounded_ensures')):
+            # every case ended in an exception although postconditions are stated: the harness, not the code, is at fault
+            json.dump({'error': f'{key}: none of the {n} cases returned normally (vacuity guard of the bounded stand-in)'}, real_out)
+            return
         bounds.append(f'{key}: {n} cases ({getattr(gen, "bound", gen.__doc__ or "")})')
     json.dump({'evaluations': evals, 'distinct': len(distinct), 'bound': '; '.join(bounds), 'exhaustive': False,
                'samples': samples, 'violations': violations, 'skipped_pre': skipped}, real_out, default=repr)
